@@ -27,8 +27,12 @@ TRUSTED = ["clang 14 front end + CFG builder", "tool/lcbfacts.cc", "rules/r_stri
 NAMES = {"host": "Host", "content-length": "Content-Length", "transfer-encoding": "Transfer-Encoding"}
 
 
+HTTP_C_PORTABLE = HTTP_C + " [-UHAVE_STRNCASECMP]"
+
+
 def specs():
-    return [common.src_unit(HTTP_C)]
+    # second configuration: a platform without strncasecmp compiles the repository's own case-insensitive comparison
+    return [common.src_unit(HTTP_C), common.src_unit(HTTP_C, label=HTTP_C_PORTABLE, cflags=("-UHAVE_STRNCASECMP",))]
 
 
 def need(u, name):
@@ -478,6 +482,38 @@ def macro_consts(names):
     return res
 
 
+def cmpi_fallback(rep, u, fname="mem_cmpi"):
+    """the field-name comparison on a build without strncasecmp is the repository's own loop: over one byte, every pair
+    (c, c'), c' in {c, c ^ 0x20, c | 0x20, c & ~0x20, c + 1}, compares equal exactly when the ASCII case folds agree"""
+    fn = need(u, fname)
+    if any(c.get("fn") == "strncasecmp" for _p, _r, c, _ps in fn.calls()):
+        raise driver.AnalysisBroken("the portable configuration still calls strncasecmp")
+    rep.functions.add(fname)
+    A, B = 0x1000, 0x2000
+    fold = lambda c: c | 32 if 65 <= c <= 90 else c
+    n = 0
+    bad = undec = None
+    for c1 in range(256):
+        for c2 in sorted({c1, c1 ^ 32, c1 | 32, c1 & ~32 & 255, (c1 + 1) & 255}):
+            pe = r_stride.PE(u)
+            pe.memory = {A: c1, B: c2}
+            ev, ret = pe.trace(fn, {"buf1": A, "buf2": B, "size": 1})
+            n += 1
+            if isinstance(ret, str) or ret is None:
+                undec = undec or "bytes 0x%02x / 0x%02x: %s" % (c1, c2, ret)
+            elif (ret == 0) != (fold(c1) == fold(c2)):
+                bad = bad or "bytes %r (0x%02x) and %r (0x%02x) compare %s: a field name that differs only in the case of this letter is %s" % (
+                    chr(c1), c1, chr(c2), c2, "equal" if ret == 0 else "different (%d)" % ret, "matched wrongly" if ret == 0 else "not found")
+    desc = "%s without strncasecmp: one-byte comparisons agree with ASCII case folding for every byte value" % fname
+    if bad:
+        rep.violated("R-SPEC", fn, "case-fold-table", desc, bad)
+    elif undec:
+        rep.undecided("R-SPEC", fn, "case-fold-table", desc, undec)
+    else:
+        rep.proved("R-SPEC", fn, "case-fold-table", desc, "%d byte pairs" % n)
+    return n
+
+
 def run(rep, tier):
     us = driver.load_units(specs())
     rep.use_units(us)
@@ -491,6 +527,7 @@ def run(rep, tier):
     count_rule(rep, u)
     rep.floor("method spellings", method_table(rep, u, consts), 14)
     rep.floor("target component searches", span_rule(rep, u), 3)
+    rep.floor("portable case-fold byte pairs", cmpi_fallback(rep, us[HTTP_C_PORTABLE]), 700)
     return driver.finish(
         rep, "other",
         "HTTP smuggling checks and field lookup, structural clauses: the rule section of http_req_sec_chk over all count/method "
